@@ -1035,6 +1035,38 @@ class Executor:
             paths = nxt
         return res + self.block(st.body, paths)
 
+    WHILE_CAP = 600
+
+    def st_While(self, st, p):
+        """`while` is executed by unrolling, and only as long as the path condition *decides* the loop condition at every iteration (both for
+        one state would mean an iteration count that depends on symbolic data: that needs an invariant, which this rule does not take ->
+        Unsupported, the function is undecided).  Complete for loops whose trip count is fixed by the case the contract was instantiated for."""
+        if st.orelse: raise Unsupported(f'{self.qualname}:{st.lineno} while/else')
+        res = []; live = [p]; rounds = 0
+        while live:
+            rounds += 1
+            if rounds > self.WHILE_CAP: raise Unsupported(f'{self.qualname}:{st.lineno} while: more than {self.WHILE_CAP} iterations')
+            nxt = []
+            for pl in live:
+                for q, c in self.ev(st.test, pl):
+                    if isinstance(c, Exc):
+                        res.append(('raise', q, c)); continue
+                    t = z3.simplify(self.truthy(c))
+                    if z3.is_true(t): go = True
+                    elif z3.is_false(t): go = False
+                    else:
+                        can_t, can_f = sat(q.pc + [t], 5000), sat(q.pc + [z3.Not(t)], 5000)
+                        if can_t and can_f: raise Unsupported(f'{self.qualname}:{st.lineno} while: condition not decided by the path condition (needs an invariant)')
+                        go = can_t
+                    if not go:
+                        res.append(('fall', q, None)); continue
+                    for kind, r, v in self.block(st.body, [q.fork()]):
+                        if kind in ('fall', 'continue'): nxt.append(r)
+                        elif kind == 'break': res.append(('fall', r, None))
+                        else: res.append((kind, r, v))
+            live = nxt
+        return res
+
     def st_For(self, st, p):
         res = []
         ordinal = loop_ordinal(self.fn, st)
